@@ -426,6 +426,7 @@ func checkCurrentPeriod(w *World, r *Report, rule string) {
 				return o.HasPath("MinterState.SequenceId") && o.HasCall("Keeper.GetMinterState", "codec.BinaryCodec.MustUnmarshal")
 			}, true)
 		}}
+	containsMinterRule(w, r, rule)
 	for _, h := range ro.MSG["cfeminter"] {
 		res := cg.GuardCover(h, func(s *Site) bool {
 			if cg.Atom(s) != StoreSet {
@@ -442,6 +443,73 @@ func checkCurrentPeriod(w *World, r *Report, rule string) {
 				r.Bad(rule, construct, w.Pos(cr.Site.Instr.Pos()), "parameters can be stored without checking that the current period exists in them; chain: "+chainString(cr.Chain, cr.Site))
 			}
 		}
+	}
+}
+
+// containsMinterRule: the membership predicate used by the parameter updates and by genesis validation means what its
+// name says for a list in ANY order (shared by C10.currentperiod and C13.current).
+func containsMinterRule(w *World, r *Report, rule string) {
+	// the predicate itself: membership decided by comparing the id of every configured period, whatever the order of
+	// the list (the update handlers call it on the message's list before validation sorts it)
+	if cm := w.Func("x/cfeminter/types.Params.ContainsMinter"); cm == nil {
+		r.Unk("infra.anchor", "x/cfeminter/types.Params.ContainsMinter", "", "anchor not found")
+	} else {
+		idP := paramOfType(cm, "uint32", 0)
+		var loop *rangeLoop
+		for _, l := range rangeLoops(cm) {
+			l := l
+			if l.Over != nil && loadOfField(l.Over, "Minters", nil) {
+				loop = &l
+			}
+		}
+		why := ""
+		if idP == nil || loop == nil {
+			why = "no loop over Params.Minters (or no id parameter)"
+		} else {
+			eq := eqEdges(cm, func(v ssa.Value) bool { return v == ssa.Value(idP) }, func(v ssa.Value) bool {
+				_, f, ok := fieldOfValue(v)
+				return ok && f == "SequenceId" && elementContainer(v) != nil
+			})
+			in := loopBlocks(loop.Header)
+			nTrue := 0
+			for _, ret := range Returns(cm) {
+				rv := retVals(ret)
+				val, isConst := constBool(rv[0])
+				switch {
+				case !isConst:
+					why = "a result is computed from something else than an id comparison per period (" + renderVal(rv[0], 0) + ")"
+				case val:
+					nTrue++
+					if !MustPass(cm, eq, ret.Block()) {
+						why = "true is returned without an element's SequenceId having compared equal to the id"
+					}
+				default:
+					// false: only once the loop is exhausted
+					if in[ret.Block()] {
+						why = "false is returned before every period was compared"
+					}
+				}
+			}
+			if nTrue == 0 && why == "" {
+				why = "never returns true"
+			}
+			// the loop may be left early only on an equal comparison (the `return true`)
+			isEq := map[Edge]bool{}
+			for _, e := range eq {
+				isEq[e] = true
+			}
+			for bb := range in {
+				if bb == loop.Header {
+					continue
+				}
+				for si, sc := range bb.Succs {
+					if !in[sc] && !isEq[Edge{bb, si}] && !MustPass(cm, eq, bb) && why == "" {
+						why = "the loop over the periods is left before every period was compared"
+					}
+				}
+			}
+		}
+		r.Check(why == "", rule, "ContainsMinter(id): true exactly when some configured period has that sequence id", w.Pos(cm.Pos()), "every period's SequenceId is compared with the id; true only on an equal comparison, false only after the whole list", "the membership predicate does not compare the id of every configured period: "+why+" - it is applied to lists in the sender's order, so an update can be accepted although the stored (sorted) configuration lacks the current period")
 	}
 }
 
